@@ -130,9 +130,31 @@ def run_batches(prop, tier, seed, wd, info, verdict, twin):
             lines.append(dict(ev="SamePair", a=a, b=b, what="batch verdicts vs one-at-a-time"))
         index.append((start, len(lines), sid))
     inv = ["SigForRequest", "SigIffSucceeded", "NoSlashableAtt"] + (["SamePairsHold", "AdvancingSigned"] if twin else [])
-    ok, violated, pos, tr = seqfamily.validate(lines, inv, 39, wd, name="SeqTraceBatch")
-    info["states"] += tr.distinct
-    info["transitions"] += tr.generated
+    # the thorough trace has about a million lines: validate it in chunks of whole scenarios (each scenario starts with Begin, which
+    # resets the trace specification's state), several TLC runs at a time
+    chunks, cur = [], []
+    for a, b, sid_ in index:
+        if cur and (b - cur[0][0]) > 30000:
+            chunks.append(cur)
+            cur = []
+        cur.append((a, b, sid_))
+    if cur:
+        chunks.append(cur)
+    from concurrent.futures import ThreadPoolExecutor
+
+    def vchunk(ic):
+        i_, ch = ic
+        lo, hi = ch[0][0], ch[-1][1]
+        ok_, violated_, pos_, tr_ = seqfamily.validate(lines[lo - 1:hi], inv, 39, wd, name="SeqTraceBatch%d" % i_)
+        return ok_, violated_, (pos_ + lo - 1) if pos_ else pos_, tr_
+    with ThreadPoolExecutor(max_workers=min(6, len(chunks))) as ex:
+        vres = list(ex.map(vchunk, enumerate(chunks)))
+    ok, violated, pos = True, None, None
+    for ok_, violated_, pos_, tr in vres:
+        info["states"] += tr.distinct
+        info["transitions"] += tr.generated
+        if not ok_ and ok:
+            ok, violated, pos = ok_, violated_, pos_
     if not ok:
         if violated == "trace-not-accepted":
             raise Inconclusive("SeqTrace could not consume line %s" % pos)
